@@ -5,7 +5,8 @@
    (partial writes, accept-0, EAGAIN/EINTR, errors, call costs), all selector answers, all timeouts and retry
    intervals.  `sk_wire` is the sequence of bytes the socket accepted, in order. *)
 From Coq Require Import ZArith List Bool Lia Arith.
-From EN Require Import Lib.Bytes IO.Retry IO.SendAll IO.SendMsg IO.TlsWrite IO.ClientLocks Proofs.C04_adjust Proofs.C04_send Proofs.C11_locks.
+From EN Require Import Conc.FlowControl.
+From EN Require Import Lib.Bytes IO.Retry IO.SendAll IO.SendMsg IO.TlsWrite IO.ClientLocks IO.AsyncAdapter Proofs.C04_adjust Proofs.C04_send Proofs.C11_locks Proofs.C04_async.
 Import ListNotations.
 
 (* adjust_leftover_buffer(buffers, n): afterwards the deque represents the unsent suffix, and a deque of non-empty
@@ -132,6 +133,31 @@ Theorem send_packet_never_waits_on_recv_lock :
 Proof. exact send_ignores_recv_lock. Qed.
 Print Assumptions send_packet_never_waits_on_recv_lock.
 
+(* ---- asyncio side (IO/AsyncAdapter.v: the byte contents carried along the flow-control transition system of
+   Conc/FlowControl.v).  For every history of send_all / send_all_from_iterable calls, kernel takes, transport death,
+   close, cancellations and wake-ups: *)
+
+(* the bytes the kernel took are a prefix of the bytes handed to the transport (never duplicated, reordered or
+   invented); while the transport lives the remainder is exactly its write buffer (nothing lost); and the contents
+   have exactly the size the flow-control model counts (so C20's "returns only when flushed" speaks about these bytes). *)
+Theorem asyncio_adapter_exact :
+  forall (cfg : tcfg) (n : nat) (c : cad),
+    creach cfg n c ->
+    (exists rest, k_handed c = k_wire c ++ rest)
+    /\ (a_dead (k_ad c) = false -> k_handed c = k_wire c ++ k_buf c)
+    /\ length (k_buf c) = buf_size (a_buf (k_ad c)).
+Proof. exact adapter_exact. Qed.
+Print Assumptions asyncio_adapter_exact.
+
+(* what is handed to the transport is the concatenation, in call order, of the data of the sends that found it alive:
+   for send_all_from_iterable the whole `concat chunks` of the packet, contiguous, in order, exactly once
+   (writelines is one synchronous call; under the client's send lock the calls follow one another). *)
+Theorem asyncio_adapter_hands_concat :
+  forall (ls : list clabel) (c c' : cad),
+    cad_run c ls = Some c' -> k_handed c' = k_handed c ++ handed_of c ls.
+Proof. exact handed_is_concat_of_sends. Qed.
+Print Assumptions asyncio_adapter_hands_concat.
+
 (* ---- non-vacuity: partial writes, a would-block answered by the selector, an empty chunk in the middle *)
 Example send_iter_runs :
   let chunks := [[1%N; 2%N]; []; [3%N; 4%N; 5%N]] in
@@ -145,3 +171,11 @@ Example send_iter_times_out :
                      [{| sa_ready := false; sa_el := 3 |}] in
   sr_out r = SExc E_TIMEOUT /\ sk_wire (sr_sock r) = [1%N].
 Proof. vm_compute. split; reflexivity. Qed.
+
+Example adapter_two_sends :
+  match cad_run (cad_init (mkCfg 0%nat 0%nat true) 2%nat)
+                [CSendIter 0%nat [[1%N; 2%N]; []; [3%N]] 1%nat; CSend 1%nat [4%N; 5%N] 9%nat; COther (AReady 4%nat)] with
+  | Some c => k_handed c = [1%N; 2%N; 3%N; 4%N; 5%N] /\ k_wire c = k_handed c /\ k_buf c = []
+  | None => False
+  end.
+Proof. vm_compute. repeat split. Qed.
